@@ -1011,6 +1011,108 @@ def cli_check(impl, src, workdir):
     return problems
 
 
+_CLI_CHILD = r"""
+import sys
+sys.dont_write_bytecode = True
+sys.path.insert(0, sys.argv[1])
+import io, contextlib, locale
+from xonsh.formatter.cli import main
+print("ENC", locale.getpreferredencoding(False))
+for path in sys.argv[2:]:
+    try:
+        with contextlib.redirect_stderr(io.StringIO()), contextlib.redirect_stdout(io.StringIO()):
+            rc = main(["-q", path])
+        print("RC", rc)
+    except BaseException as e:
+        print("RAISED", type(e).__name__, str(e).encode("ascii", "backslashreplace").decode()[:150].replace("\n", " "))
+"""
+
+
+def stream_cli_locale(ctx, n):
+    """`xonsh format FILE` (in place) in a CHILD interpreter whose locale encoding is not UTF-8"""
+    import subprocess
+    import sys
+
+    name = "cli-foreign-locale"
+    ctx.stream_rule(
+        name,
+        "the real xonsh.formatter.cli.main, in-place mode, run in a child interpreter under LC_ALL=C PYTHONCOERCECLOCALE=0 PYTHONUTF8=0 "
+        "(locale encoding ASCII) on scratch files with non-ASCII content (identifiers, strings, comments, subprocess words; generated "
+        "programs, directed inputs, and damaged ones that cannot be tokenised): afterwards the bytes on disk must be format_source's result "
+        "encoded as UTF-8 (the file is read as UTF-8 whatever the locale), exit status 0; for untokenisable input the bytes must be untouched "
+        "and the status 123; a file is never left truncated or empty; non-trivial = formatting changes the file",
+    )
+    impl = Impl.get()
+    srcs = [s for s in DIRECTED if not s.isascii()] + ["x = 'é'   \n", "名 = 1 ;print(名)\n", "echo é  ü,ö\n", "# ü\nx=1\n", 'x = """é\n', "名 = (1,\n", "s = 'ü\n"]
+    tries = 0
+    while len(srcs) < n and tries < 40 * n:
+        tries += 1
+        g = Gen(ctx.rng, small=True)
+        t = g.program().replace("\r", "")
+        if t.isascii():
+            continue
+        srcs.append(damage(ctx.rng, t) if tries % 7 == 0 else t)
+    srcs = [t for t in srcs if _utf8_ok(t)]
+    work = os.path.join(impl.home, "cli-locale")
+    os.makedirs(work, exist_ok=True)
+    paths = []
+    for i, t in enumerate(srcs):
+        pth = os.path.join(work, f"f{i}.xsh")
+        with open(pth, "wb") as fh:
+            fh.write(t.encode("utf-8"))
+        paths.append(pth)
+    env = {"LC_ALL": "C", "LANG": "C", "PYTHONCOERCECLOCALE": "0", "PYTHONUTF8": "0", "PYTHONIOENCODING": "utf-8", "PATH": os.environ.get("PATH", ""),
+           "HOME": impl.home, "XONSH_XONSH_VERIF": "1"}
+    out = []
+    for k in range(0, len(paths), 200):
+        pr = subprocess.run([sys.executable, "-c", _CLI_CHILD, str(common.REPO)] + paths[k : k + 200], env=env, capture_output=True, text=True, timeout=900)
+        lines = [ln for ln in pr.stdout.split("\n") if ln.startswith(("RC", "RAISED", "ENC"))]
+        enc = [ln for ln in lines if ln.startswith("ENC")]
+        if not enc or "utf" in enc[0].lower():
+            raise common.InfraError(f"the child interpreter's locale encoding is {enc[:1]} (a non-UTF-8 one is needed): {pr.stderr[-300:]}")
+        res = [ln for ln in lines if not ln.startswith("ENC")]
+        if len(res) != len(paths[k : k + 200]):
+            raise common.InfraError("cli child: short output: " + pr.stderr[-400:])
+        out += res
+    ctx.extra["cli_child_locale_encoding"] = enc[0][4:]
+    for t, pth, rcline in zip(srcs, paths, out):
+        with open(pth, "rb") as fh:
+            after = fh.read()
+        data = t.encode("utf-8")
+        as_read = io.TextIOWrapper(io.BytesIO(data), encoding="utf-8").read()
+        want = impl.format(as_read)
+        ok_tok = impl.tokenizes(as_read)[0]
+        changed = want[0] == "ok" and want[1] != as_read
+        ctx.case(name, t, changed, {"src": t, "child": rcline} if len(t) < 200 else None)
+        problem = None
+        if not ok_tok or want[0] != "ok":
+            if after != data:
+                problem = "a file that cannot be tokenised was rewritten"
+            elif rcline != f"RC {impl.cli.EXIT_ERROR}":
+                problem = "a file that cannot be tokenised was not reported as an error (exit 123)"
+        else:
+            expect = want[1].encode("utf-8") if changed else data
+            if after != expect:
+                problem = "the file does not hold format_source's result encoded as UTF-8" + (" (left truncated / empty)" if len(after) < len(expect) // 2 or not after else "")
+            elif rcline != f"RC {impl.cli.EXIT_OK}":
+                problem = "wrong exit status / exception"
+        if problem:
+            ctx.count(f"{name}/failure/cli/NEW")
+            ctx.spec_failure({"stream": name, "src": t[:3000], "kind": "cli", "locale": "LC_ALL=C PYTHONCOERCECLOCALE=0 PYTHONUTF8=0"},
+                             {"problem": problem, "child": rcline, "bytes_before": len(data), "bytes_after": len(after),
+                              "first_difference": _first_diff(after.decode("utf-8", "replace"), (want[1] if want[0] == "ok" else as_read))}, WHY_CLI, None)
+        with contextlib.suppress(OSError):
+            os.unlink(pth)
+
+
+def _utf8_ok(t):
+    try:
+        t.encode("utf-8")
+        return True
+    except UnicodeEncodeError:
+        return False
+
+
 # ------------------------------------------------------------------ worker processes
 _WORKER = {}
 
@@ -1234,6 +1336,8 @@ DIRECTED = [
     "x = ...\n", "x = a.b.c\n", "x = a . b\n", "x = 1 .real\n", "x = a<b\n", "x = a>b\n", "x = a >= b\n", "x = a<=b\n", "x = a<<b\n", "x = a>>b\n", "x = a|b\n", "x = a&b\n", "x = a^b\n", "x = a//b\n", "x = a%b\n",
     "x = 1;\n", "x = 1 ;y = 2\n", "global a,b\n", "assert x,'m'\n", "raise E from e\n", "from a import (b,\n    c)\n", "from . import x\n", "from .. m import y\n", "é = 'ü'\n", "名 = 1\n",
     "# -*- coding: latin-1 -*-\nx = '\u00e9 \u00fc'\n", "# vim: set fileencoding=cp1252 :\ny = \"\u00e9\"  # \u00fc\n", "./x.sh a,b c:d\n", "@(cmd) a,b\n",
+    "rm @($(find . -name a,b).split())\n", "y = ${$(echo HOME:x).strip()}\n", "echo @(f($(ls a,b  k=v), 'c,d')) e:f\n", "echo $(echo @(f(a,b)) c,d x>=1)\n",
+    "echo @$(which @(x) a:b) c,d\n", "z = f($(echo @([1 ,2]) a,b), 3)\n", "echo @($(echo @($(ls a,b)) c:d)) e=f\n", "x = $(echo ${'A' + 'B'} a,b ${$(echo c:d)})\n",
     "$(ls)\nx = 1 # c\n", "![ls]\nx = [\n    1,\n    # c\n    2,\n]\n", "$[ls]\nx = (\n  # c\n  1)\n", "x = 1\n\f\ny = 2\n", "x = 1\r\ny = 2\r\n", "if x:\r\n    y = 1\r\n",
     "x = {\n}\n", "x = [\n\n\n    1,\n\n\n    2]\n", "f(\n    a,\n\n    b)\n", "x = (1,\n     2,\n     3)\n", "x = f(a,\n      b)\n", "x = [\n\t1,\n\t2,\n]\n",
     "x = \\\n  1\n", "with a as b, \\\n     c as d:\n    pass\n", "x = (a  # c\n     + b)\n", "def f(): return 1\n", "if x: y = 1\n", "else_ = 1\n", "in_ = 2; is_ = 3\n", "lambda_ = 1\n",
@@ -1416,6 +1520,7 @@ def run(ctx):
     stream_malformed(ctx, ctx.n(120, 1500))
     stream_generated(ctx, ctx.n(150, 2000))
     stream_generated(ctx, ctx.n(400, 6000), name="generated-small", small=True, cli_every=10)
+    stream_cli_locale(ctx, ctx.n(60, 600))
     stream_corpus(ctx, ctx.n(25, 0), ctx.n(12000, 0))
 
 
@@ -1544,6 +1649,7 @@ SUB_ARGS = [
 ]
 REDIRS = ["> out.txt", ">> log", "< in.txt", "2> err.txt", "2>&1", "e>o", "o>e", "a> all.txt", "err> e.txt", "out> o.txt", "e>> e.log", "1>2".replace("1>2", "1> two"), "all>> a.log"]
 COMMENTS = ["# c", "#c", "#  two", "# trail  ", "#", "##", "# x = 1", "#def f():", "#!shebang", "# é", "# a # b", "# 'q", '# "q', "# $(x)", "#\ttab"]
+PUNCT_WORDS = ["a,b", "a:b", "k=v", "x>=1", "x==y", "http://h/p", "user:group", "in.txt", "--key=a,b", "-n", "w", "dir/", "80:80"]
 MACRO_RAW = ["a b", "a   b", "x  =  1", "1 +   2", "'q  q'", "a,b", "a , b", "if  x:", "(  a  )", "[1,2 , 3]", "$HOME  x", "--f=v  -l", "a ;b", "a:b", "a == b", "a==b", "a\tb"]
 
 
@@ -1717,7 +1823,38 @@ class Gen:
             s += RG + "&"
         return s
 
+    # -- mode-switching brackets nested in both directions: a capture inside a Python island inside a command, a Python island
+    #    inside a capture inside a command, …; the words carry the punctuation the Python spacing rules react to
+    def nest_sub(self, depth):
+        """subprocess-mode text: words, and (depth > 0) one bracket that switches mode or opens a nested capture"""
+        self.features.add("nested-mode-brackets")
+        words = [self.ch(PUNCT_WORDS) for _ in range(self.rng.randint(1, 3))]
+        if depth > 0:
+            k = self.rng.random()
+            if k < 0.45:
+                words.insert(self.rng.randint(0, len(words)), "@(" + OG + self.nest_py(depth - 1) + OG + ")")
+            elif k < 0.60:
+                words.insert(self.rng.randint(0, len(words)), "${" + OG + self.ch(["$(", "!("]) + OG + "echo" + RG + self.nest_sub(depth - 1) + OG + ")" + self.ch([".strip()", ".out.strip()"]) + OG + "}")
+            elif k < 0.80:
+                words.insert(self.rng.randint(0, len(words)), "@$(" + OG + "echo" + RG + self.nest_sub(depth - 1) + OG + ")")
+            else:
+                words.insert(self.rng.randint(0, len(words)), "$(" + OG + "echo" + RG + self.nest_sub(depth - 1) + OG + ")")
+        return RG.join(words)
+
+    def nest_py(self, depth):
+        """Python-mode text: an expression, holding (depth > 0) a capture whose words are subprocess text again"""
+        if depth <= 0:
+            return self.ch(["x", "f(a" + OG + "," + OG + "b)", "[1" + OG + "," + OG + "2]", "{'k'" + OG + ":" + OG + "1}", "a" + OG + "==" + OG + "b", "'a,b:c'"])
+        o = self.ch(["$(", "!(", "$["])
+        c = "]" if o.endswith("[") else ")"
+        cap = o + OG + self.ch(["find", "echo", "ls"]) + RG + self.nest_sub(depth - 1) + OG + c
+        if o == "$(":
+            cap += self.ch([".split()", ".strip()", ""])
+        return self.ch([cap, "f(" + OG + cap + OG + "," + OG + "'a,b'" + OG + ")", cap + OG + "+" + OG + "[1" + OG + "," + OG + "2]"])
+
     def sub_arg(self):
+        if not self.in_block_macro and not self.flat and self.rng.random() < 0.05:
+            return self.nest_sub(self.rng.randint(1, 3)).replace(RG, RG)
         a = self.ch(SUB_ARGS)
         while self.in_block_macro and a.startswith('f"'):
             a = self.ch(SUB_ARGS)
@@ -1782,6 +1919,12 @@ class Gen:
             return e()
         if r < 0.60:
             return self.subproc_line()
+        if r < 0.625 and not self.in_block_macro:
+            k = self.rng.random()
+            if k < 0.5:
+                self.last_kind = "sub"
+                return self.ch(CMD_NAMES) + RG + self.nest_sub(self.rng.randint(1, 3))
+            return self.simple_name() + OG + "=" + OG + self.nest_py(self.rng.randint(1, 3))
         if r < 0.66:
             return self.macro_line()
         if r < 0.70:
